@@ -101,6 +101,7 @@ fn main() {
                 }
                 i += 2;
             }
+            prng::set_depth(if tier == Tier::Thorough { 2 } else { 1 });
             let runs = runs.unwrap_or_else(|| default_runs(prop, tier));
             let det = det.unwrap_or(match tier {
                 Tier::Quick => (runs / 100).clamp(200, 2000),
@@ -120,6 +121,9 @@ fn main() {
                 usage();
             }
             let prop = Prop::parse(&args[2]).unwrap_or_else(|| usage());
+            if args.get(5).map(|s| s == "thorough").unwrap_or(false) {
+                prng::set_depth(2);
+            }
             let scn = driver::generate(prop, args[3].parse().unwrap_or(1), args[4].parse().unwrap_or(0));
             print!("{}", scn.to_text());
         }
